@@ -431,7 +431,7 @@ fn main() {
     }
 
     // (1) 2D: every connected D-set up to isomorphism, symmetry-breaking branching assignments
-    let nmax2 = if th { 8 } else { 7 };
+    let nmax2 = 8;
     for n in 1..=nmax2 {
         let sets = dsets_up_to_iso(2, n, true);
         for (t, aut) in &sets {
@@ -448,7 +448,9 @@ fn main() {
                 match n {
                     1..=5 => (&[1, 2, 3], 729),
                     6 => (&[1, 2, 3], if sym { 729 } else { 81 }),
-                    _ => (&[1, 2, 3], if sym { 243 } else { 9 }),
+                    7 => (&[1, 2, 3], if sym { 243 } else { 9 }),
+                    // n = 8 (quick): the D-sets with a symmetry only — where defect D3 lived
+                    _ => (&[3, 4, 6], if sym { 81 } else { 0 }),
                 }
             } else {
                 match n {
@@ -458,6 +460,9 @@ fn main() {
                     _ => (&[1, 2, 3], if sym { 729 } else { 81 }),
                 }
             };
+            if cap == 0 {
+                continue;
+            }
             let mut syms = assignments(t, vals, cap, &mut rng);
             if th && sym && n >= 5 {
                 // larger branching values on the symmetric D-sets
